@@ -180,7 +180,7 @@ Definition toyO : oracles :=
   mkO toy_hash toy_hmac toy_extract toy_expand
       (fun _ p => p) (fun _ _ => 1) (fun _ a b => Some [zsum a + zsum b])
       (fun key _ data => key ++ data) (fun cert _ data sg => beqb sg (cert ++ data))
-      (fun _ => true) (fun _ => 2) (fun _ _ => 0)
+      (fun _ => true) (fun _ => 2) (fun _ _ => 0) (fun n => beqb n [49])
       (fun _ => POk toy_ch) (fun _ => POk toy_sh) (fun _ => POk toy_ee) (fun _ => POk (mkCR [] None)) (fun _ => POk toy_ct)
       (fun m => POk (mkCV 0x0403 (zdrop 4 m))) (fun m => POk (zdrop 4 m)) (fun _ => POk tt)
       (fun _ => hdr 1 [1]) (fun _ => hdr 2 [2]) (fun _ => hdr 8 [3]) (fun _ => hdr 13 []) (fun _ => hdr 11 [77])
@@ -205,11 +205,11 @@ Qed.
 Definition no_cb (a : option bytes) (e : list ext) : Z * option (list ext) := (0, None).
 Definition toy_client : cfg :=
   mkCfg [0x1301] [0] [0x0304] [0x0403] [1] (Some [[104; 51]]) [] [] [] [] [1]
-        [(29, [5])] (Some [101]) (Some [101]) true None false []
+        [(29, [5])] (Some [101]) true None false []
         false false (fun _ => None) (fun _ => []) no_cb.
 Definition toy_server : cfg :=
   mkCfg [0x1301] [0] [0x0304] [0x0403] [1] (Some [[104; 51]]) [] [[77]] [77] [0x0403] [2]
-        [] None None false None false []
+        [] None false None false []
         false false (fun _ => None) (fun _ => [6]) no_cb.
 
 Fixpoint run_out (O : oracles) (c : cfg) (s : tst) (ms : list bytes) : tst * list bytes :=
@@ -259,7 +259,7 @@ Proof. vm_compute. reflexivity. Qed.
 (* disjoint cipher suites: the server refuses the hello, nobody completes *)
 Example disjoint_suites_do_not_complete :
   let sc := mkCfg [0x1302] [0] [0x0304] [0x0403] [1] (Some [[104; 51]]) [] [[77]] [77] [0x0403] [2]
-                  [] None None false None false [] false false (fun _ => None) (fun _ => [6]) no_cb in
+                  [] None false None false [] false false (fun _ => None) (fun _ => [6]) no_cb in
   step toyO sc (init_server sc) (client_hello_msg toyO toy_client) = (OAlert AD_handshake_failure, init_server sc, []).
 Proof. vm_compute. reflexivity. Qed.
 
@@ -360,7 +360,7 @@ Definition toyO2 : oracles :=
   mkO toy_hash toy_hmac toy_extract toy_expand
       (fun _ p => p) (fun _ _ => 1) (fun _ a b => Some [zsum a + zsum b])
       (fun key _ data => key ++ data) (fun cert _ data sg => beqb sg (cert ++ data))
-      (fun _ => true) (fun _ => 2) (fun _ _ => 0)
+      (fun _ => true) (fun _ => 2) (fun _ _ => 0) (fun n => beqb n [49])
       (fun _ => POk toy_ch) (fun m => POk (dec_sh (zdrop 4 m))) (fun m => POk (dec_ee (zdrop 4 m)))
       (fun _ => POk (mkCR [] None)) (fun _ => POk toy_ct)
       (fun m => POk (mkCV 0x0403 (zdrop 4 m))) (fun m => POk (zdrop 4 m)) (fun _ => POk tt)
